@@ -17,19 +17,19 @@ TV = "TLC: exhaustive design-level model + trace validation of the real library 
 CLAIMS.update({
  "C03": dict(cat=MC, tech=TV, ref="5 C03",
    text="Mantis mode machine MC_Mode.tla is checked exhaustively by TLC in a symbolic xor algebra (all keys/tweaks at once): swap.swap = id, swap = rekey in the other mode with the tweak kept; two wrong swaps must fail. The real MantisKey_t and parallel objects are driven along random walks of that machine and every state image and output is validated by TLC against MantisSpec in the model's mode; for SKINNY the same arbitrary blocks go through encrypt and decrypt of single-block and parallel functions on every back end, each validated against SkinnySpec, so the round trip follows from conformance and Dec.Enc=id of the specification, which MC_Cipher.tla checks (Mix/InvMix and Mantis M exhaustively per 4-bit column, rounds and whole ciphers on a deterministic sample). Every edge of the mode machine's TLC state graph is executed on the real objects.",
-   note="Exhaustive within MC_Mode's constants (2 keys, 3 tweaks, 7 calls); code side samples inputs. Inverse of vector S-boxes driven at reduced rounds over every cell value."),
+   note="Exhaustive within MC_Mode's constants (2 keys, 3 tweaks, 7 calls); code side samples inputs. Inverse of vector S-boxes driven at reduced rounds over every cell value. The decrypt direction is also run on a request of 4 GiB + n bytes."),
  "C04": dict(cat=MC, tech=TV, ref="5 C04",
    text="MC_Tweak.tla: the incremental tweak update as the code performs it (xor remembered tweak out, new one in, remember) is checked exhaustively by TLC against 'schedule = Fresh(key, last tweak)' for all call sequences to depth 4 in a symbolic xor algebra; three wrong update rules must fail. Traces of skinny128/64_set_tweaked_key/set_tweak and the CTR tweak API (every length 1..bs, NULL, invalid lengths, random histories) are validated by TLC: after every call the logged schedule image and remembered tweak must equal the schedule SkinnySpec computes afresh from key and latest tweak (TK1 = tweak with domain constant). Every edge of the tweak machine's TLC state graph is executed on the real objects; a fresh process uses plain keys first.",
    note="Exhaustive within MC_Tweak's constants; code side: lengths enumerated, values and histories sampled."),
  "C05": dict(cat=MC, tech=TV, ref="5 C05",
    text="MC_Ctr.tla: implementation-shaped CTR models (counter lanes, keystream buffer, offset, three-way copy loop) for batch sizes 1,2,4 (8 in thorough) are checked by TLC to refine the stream-position contract (output = input xor E(c),E(c+1).. independent of call boundaries) over all call sequences of Init/SetCounter/SetKey/Encrypt(0..2B*bs+1) with radix-4 two-digit counters (all carries, wrap-around). Real streams (default counter after init, all-FF, FF-suffix carry chains, short and NULL counters, irregular cuts around block and 4/8-block batch boundaries, zero-length calls, in place) for Skinny-64/128 plain and tweaked and Mantis on every back end are validated by TLC against the real cipher in TLA+.",
-   note="Design-level exhaustive within constants; code-level inputs sampled, lower back ends accepted by identity with the TLC-validated reference trace or validated themselves."),
+   note="Design-level exhaustive within constants; code-level inputs sampled, lower back ends accepted by identity with the TLC-validated reference trace or validated themselves. One request of 4 GiB + n bytes per cipher (length beyond 32 bits) is validated by sampled key-stream blocks around the 4 GiB boundary and by the stream position afterwards; skipped with a note in the evidence if the memory is not available."),
  "C06": dict(cat=MC, tech=TV, ref="5 C06",
    text="Product of the implementation-shaped CTR models for all batch sizes driven in lock-step by TLC (all call sequences incl. key change mid-stream): outputs and denoted stream positions agree; the as-shipped transitions (lanes not staggered, batch dropped on rekey) must fail. Every CTR and parallel scenario (incl. mid-stream key/tweak/counter changes, invalid calls, unkeyed objects) is executed under each back-end cap (hook H2); the reference trace is validated by TLC against the contract, which mentions no back end, and the other traces must be identical up to the back-end name or are validated by TLC themselves. Includes an unconstrained API fuzz (any function, any argument class, any order - the contract models even the improper key/tweak combinations) and 'same value set again' scenarios.",
    note="A back end the host CPU lacks cannot be run; the cap only lowers the probe's answer."),
  "C07": dict(cat=MC, tech=TV, ref="5 C07",
    text="MC_Par.tla: batch loop + remainder loop equals the map over blocks for every byte count 0..51 (block = 2), psize 4 and 8 blocks, with and without vector table; ragged sizes rejected; dropping the remainder loop must fail. Real parallel encrypt/decrypt/crypt calls with 0..19 blocks (25 thorough), ragged sizes, in/out of place, distinct Mantis tweak per block, all key sizes/rounds/modes, reduced-round S-box sweeps, on every back end, validated block by block by TLC against the specification's single-block cipher; parallel_size against the contract's ParSize(kind, back end).",
-   note="Single-block conformance itself is C01/C02."),
+   note="Single-block conformance itself is C01/C02. One request of 4 GiB + n bytes per cipher (all blocks equal, so every output block must equal the first) covers lengths beyond 32 bits; skipped with a note in the evidence if the memory is not available."),
  "C10": dict(cat=MC, tech=TV, ref="5 C10",
    text="MC_KeyLen.tla: word-wise model of the partial tweakey load, exhaustive over every length 0..3bs+16 and a huge class x entry point x prior state: accepted iff documented, loaded tweakey = zero-padded key, rejected = unchanged; the as-shipped load must fail. On the code EVERY length 0..3*bs+16 plus 2^31-1, 2^32-1 and wrap-around classes is tried on all 13 key-setting entry points (Mantis: all rounds 0..11 and huge) with non-zero key bytes and a painted stack; schedule images and subsequent outputs validated by TLC against the zero-padded key, rejections must leave state and outputs unchanged.",
    note="Length dimension enumerated completely; key bytes sampled."),
@@ -41,7 +41,7 @@ CLAIMS.update({
    note="calloc/free interposed with -Wl,--wrap on the static library."),
  "C16": dict(cat="fault_enumeration", tech="complete fault enumeration, traces validated by TLC against the TLA+ contract", ref="5 C16",
    text="Complete enumeration of: six init functions x every back end x six prior contents of the caller's object x failure of the single allocation each init makes (84 cases), each followed by cleanup and every other call in both orders, then successful re-init and use; validated by TLC against the contract (failed behaves exactly as dead, nothing leaked). MC_Life enumerates the failure branch at every init of the design model.",
-   note="Each init makes one allocation (observed in every trace)."),
+   note="Each allocation request an init makes is failed in turn (n-th request enumeration); neighbouring caller objects are watched for overruns of the failed handle."),
  "C17": dict(cat=MC, tech=TV, ref="5 C17",
    text="MC_Life.tla WipedAtFree over all interleavings; on the code the wrapped free() inspects every byte of the block as allocated before releasing it and the trace spec requires zero non-zero bytes at every cleanup, for histories that dirty every context region, per kind and back end, and with cleanup immediately after EVERY transition of the CTR and parallel machines with key-size classes (TLC state graphs Gen_Ctr_sizes / Gen_Par_sizes), so that every final context state (re-keyed long->short, buffer used up exactly, position just reset) is reached.",
    note="The inspection happens inside free(), i.e. after the library's wipe and before release."),
@@ -71,7 +71,7 @@ CLAIMS.update({
    note="AVR inline assembly cannot be executed on the host. API used as the Cipher interface prescribes (setKey, setIV, then data; exact key sizes)."),
  "C20": dict(cat="exploration", tech="tool runs validated by TLC against ToolsTrace.tla; MC_Tools design model", ref="5 C20",
    text="MC_Tools.tla: option classifier = documented conditions over abstract argv; chunked loops = whole-file processing (a chunk size that is not a block multiple must fail). The three binaries built from the tree are run for both block sizes, every legal key length, counters/tweaks of lengths 1..bs with carries or absent, -d, file lengths around block and 1024-byte chunk edges; exit status, output existence and every output byte are validated by TLC against SkinnySpec (CTR stream law, ECB map, per-block tweak increment); round trips; 12 classes of invalid options per tool must exit non-zero without creating the output file.",
-   note="Short reads from fread() are not provoked; hex options are plain hex."),
+   note="Short reads from fread() are not provoked. The hex syntax of -k/-c/-t (separators, single-digit bytes, case) is defined in ToolsTrace (ParseHex) and exercised; output files that exist beforehand (longer/shorter/equal/empty) are covered."),
 })
 
 PENDING = {}
